@@ -40,10 +40,10 @@ class C15(Prop):
     thorough_runs = 200000
 
     def families(self, tier):
-        return [("echo", 4), ("echo-sweep", 3), ("maxrep", 2), ("oid-echo", 2)]
+        return [("echo", 4), ("echo-sweep", 3), ("maxrep", 2), ("oid-echo", 2), ("after-failure", 1)]
 
     def expected_counters(self, tier):
-        return ["probe.echo-checked", "probe.echo-negative", "probe.echo-8-octets", "probe.echo-boundary", "probe.maxrep-checked", "probe.oid-echo-checked", "probe.oid-echo-5-octet-arc", "probe.tx-strict-decoded", "probe.sweep-block"]
+        return ["probe.echo-checked", "probe.echo-negative", "probe.echo-8-octets", "probe.echo-boundary", "probe.maxrep-checked", "probe.oid-echo-checked", "probe.oid-echo-5-octet-arc", "probe.tx-strict-decoded", "probe.sweep-block", "probe.after-failure-checked"]
 
     def gen_indexed(self, rng, family, tier, index):
         flavour = rng.choice(["sync", "async"])
@@ -69,6 +69,24 @@ class C15(Prop):
                 scripts["%d:1" % opid] = {"replies": [{"k": "genuine", "rewrite": {"boots": b, "time": t}}]}
             ops.append({"id": len(vals) // 2 + 2, "s": 0, "op": "get", "oid": oid})
             return {"flavour": flavour, "agent": agent, "sessions": [sess], "ops": ops, "scripts": scripts, "latency_ns": 1001, "family_kind": family}
+        if family == "after-failure":
+            # an encoding that fails half-way (too large) leaves a partly filled pooled buffer behind:
+            # whatever is encoded next, by any session, must still be one minimal message
+            s0 = community_session(rng, rng.choice(["v1", "v2c"]))
+            s1 = community_session(rng, "v2c")
+            agent["communities"] = [s0["community"], s1["community"]]
+            for c in (s0, s1):
+                c["timeout_ns"] = 50_000_000
+            ops = []
+            opid = 0
+            for _ in range(rng.randint(1, 3)):
+                opid += 1
+                n = rng.choice([150, 300, 600])
+                ops.append({"id": opid, "s": rng.choice([0, 1]), "op": "get_many", "oids": [gen.oid_text(gen.oid(rng, min_extra=8, max_extra=14, small=0.1)) for _ in range(n)]})
+                for _ in range(rng.randint(1, 3)):
+                    opid += 1
+                    ops.append({"id": opid, "s": rng.choice([0, 1]), "op": rng.choice(["get", "get"]), "oid": gen.oid_text(gen.oid(rng))})
+            return {"flavour": flavour, "agent": agent, "sessions": [s0, s1], "ops": ops, "scripts": {}, "latency_ns": 1001, "family_kind": family}
         ver = rng.choice(["v2c", "v3"])
         if ver == "v3":
             a, sess = v3_setup(rng, rng.choice(["noauth", "sha", "md5-aes"]), discover=False, ktypes=["localized"])
@@ -114,8 +132,10 @@ class C15(Prop):
         for res in run.results:
             exs = run.exchanges(res)
             for n, ex in enumerate(exs):
-                dec = run.wire_dec[(0, ex["serial"])]
+                dec = run.wire_dec[(res["s"], ex["serial"])]
                 run.sim.count("probe.tx-strict-decoded")
+                if fam == "after-failure":
+                    run.sim.count("probe.after-failure-checked")
                 if not dec.get("ok"):
                     out.append(V("C15.not-minimal-or-malformed", "emitted datagram refused by the strict decoder: %s (%s)" % (dec.get("error"), ex["hex"][:160])))
                     continue
